@@ -5,7 +5,7 @@
   bit-exact NTT of Model/NTT.lean and the `RescaleConstants` table of ring/ring.go):
       divFloor, divFloorNTT, divFloorMany, divFloorManyNTT,
       divRound, divRoundNTT, divRoundMany, divRoundManyNTT
-  `divRound*` (non-NTT) return the pair (p0 after the call, p1): the Go code REWRITES its input.
+  None of them modifies its input (`DivRoundByLastModulus` did before the repair C02-1 of /repo).
 
   INTEGER LEVEL (the specification the limb level refines, Proofs/Scaling*.lean):
       divFloorRes / divFloorInt / divRoundInt : the per-modulus formula on residues.
@@ -91,24 +91,24 @@ def roundLastLimb (ql xl : Nat) : Nat := addscalarvec_lane xl (pHalf ql) 0 ql
 /-- the scalar `s.Modulus - BRedAdd(pHalf, s.Modulus, s.BRedConstant)` -/
 def roundScalar (qi ql : Nat) : Nat := u64sub qi (BRedAdd (pHalf ql) qi (brc qi))
 
-/-- row `i` of p0 after `AddScalarLazyThenNegTwoModulusLazy(p0[i], scalar, p0[i])` -/
-def roundTmpLimb (qi ql xi : Nat) : Nat :=
-  addscalarlazythenNegTwoModuluslazyvec_lane xi (roundScalar qi ql) 0 qi
+/-- the scalar `MRed(q_i − BRedAdd(pHalf, q_i), RescaleConstants[level-1][i])`, i.e. `(−pHalf)·(−q_ℓ⁻¹) mod q_i` -/
+def roundConst (qi ql : Nat) : Nat :=
+  MRed (roundScalar qi ql) (rescaleConst qi ql) qi (GenMRedConstant qi)
 
-/-- one limb of `DivRoundByLastModulus` (`xl'` is the already shifted last row) -/
+/-- one limb of `DivRoundByLastModulus` (`xl'` is the already shifted last row, staged in the output):
+    `SubThenMulScalarMontgomeryTwoModulus(buff, p0[i], RescaleConstants[level-1][i], p1[i])` then
+    `AddScalar(p1[i], roundConst, p1[i])` -/
 def divRoundLimb (qi ql : Nat) (xi xl' : Nat) : Nat :=
-  addlazythenmulscalarmontgomeryvec_lane xl' (roundTmpLimb qi ql xi) (rescaleConst qi ql) 0 qi (GenMRedConstant qi)
+  addscalarvec_lane (divFloorLimb qi ql xi xl') (roundConst qi ql) 0 qi
 
-/-- `DivRoundByLastModulus(p0, p1)` with `p0`, `p1` distinct: (p0 after the call, rows of p1).
-    p0 IS MODIFIED: its last row becomes `p0[level] + pHalf mod q_ℓ`, every other row `i`
-    becomes the lazy value `scalar + 2q_i − p0[i]`. Rows above `level` are untouched. -/
-def divRound (qs : List Nat) (level : Nat) (p0 : Rows) : Rows × Rows :=
+/-- `DivRoundByLastModulus(p0, p1)`: rows `0..level-1` of `p1`.  `p0` is NOT modified (since the repair of
+    /repo: the shifted last row is staged in the last output row; for the in-place call `p1 = p0` in p0's own
+    last row, which is dead after the call).  At level 0 the function returns at once. -/
+def divRound (qs : List Nat) (level : Nat) (p0 : Rows) : Rows :=
   let ql := modulus qs level
   let last' := (row p0 level).map (roundLastLimb ql)
-  let tmp := (List.range level).map fun i => (row p0 i).map (roundTmpLimb (modulus qs i) ql)
-  let out := (List.range level).map fun i =>
+  (List.range level).map fun i =>
     List.zipWith (divRoundLimb (modulus qs i) ql) (row p0 i) last'
-  (tmp ++ [last'] ++ p0.drop (level + 1), out)
 
 /-- `nb` successive `DivFloorByLastModulus` starting at `level` (buffer aliasing `buff, buff` is harmless:
     row `i` of the output depends on rows `i` and `level` of the input only) -/
@@ -118,7 +118,7 @@ def iterFloor (qs : List Nat) : Nat → Nat → Rows → Rows
 
 def iterRound (qs : List Nat) : Nat → Nat → Rows → Rows
   | 0, _, p => p
-  | nb + 1, level, p => iterRound qs nb (level - 1) (divRound qs level p).2
+  | nb + 1, level, p => iterRound qs nb (level - 1) (divRound qs level p)
 
 /-- `DivFloorByLastModulusMany(nbRescales, p0, buff, p1)`; `none` = the Go code panics
     (`AtLevel(-1)`) -/
@@ -128,14 +128,12 @@ def divFloorMany (qs : List Nat) (level nb : Nat) (p0 : Rows) : Option Rows :=
   else if nb > level then none
   else some (iterFloor qs nb level p0)
 
-/-- `DivRoundByLastModulusMany`: (p0 after the call, p1) -/
-def divRoundMany (qs : List Nat) (level nb : Nat) (p0 : Rows) : Option (Rows × Rows) :=
-  if nb = 0 then some (p0, p0.take (level + 1))
+/-- `DivRoundByLastModulusMany` (p0 is not modified) -/
+def divRoundMany (qs : List Nat) (level nb : Nat) (p0 : Rows) : Option Rows :=
+  if nb = 0 then some (p0.take (level + 1))
   else if nb = 1 then some (divRound qs level p0)
   else if nb > level then none
-  else
-    let (p0', b) := divRound qs level p0
-    some (p0', iterRound qs (nb - 1) (level - 1) b)
+  else some (iterRound qs nb level p0)
 
 /-! ### NTT-domain variants -/
 
